@@ -138,3 +138,9 @@ static void run_c03_refusals(void)
 SIM_WORKLOAD("C12", "refusals", run_c12_refusals, 1)
 SIM_WORKLOAD("C17", "refusals", run_c17_refusals, 1)
 SIM_WORKLOAD("C03", "refusals", run_c03_refusals, 1)
+/* C11: ABT_thread_resume of a unit that is not blocked is refused and does not make it run twice */
+static void run_c11_refusals(void)
+{
+    run_refusals();
+}
+SIM_WORKLOAD("C11", "refusals", run_c11_refusals, 1)
